@@ -95,7 +95,7 @@ func (p c09) Run(c *core.Ctx, idx int) {
 	cmp := dp.CmpOpts{}
 	if storeKind > 0 {
 		gm = dp.GoModes[storeKind-1]
-		o.Types, o.KeyTypes = dp.GoTypes(gm), dp.GoKeyTypes(gm)
+		dp.GoGen(&o, gm)
 		o.CompoundKeys = false
 		cmp = dp.CmpOpts{IgnoreListOrder: true, EmptyListIsAbsent: true}
 	}
